@@ -179,7 +179,7 @@ func finalClientAudit(w *World, final *servedSTH) {
 				s.Violate("client-rejects", "GetEntries", "client.LogClient.GetEntries(%d,%d): %v (%d entries)", idx, idx, err, len(entries))
 				return
 			}
-			if msg := w.decodedMatches(&entries[0], c.sub, idx); msg != "" {
+			if msg := w.decodedMatches(&entries[0], w.creatorOf(c.sub), idx); msg != "" {
 				s.Violate("client-disagrees", "GetEntries", "entry %d fetched through client.LogClient differs from sub%d: %s", idx, c.sub.ID, msg)
 				return
 			}
